@@ -31,6 +31,31 @@ Sels(v) == {JBool(TRUE), JBool(FALSE)} \cup
 \* root selections never mention iss / exp (always visible anyway)
 RootSels(at) == {s \in Sels(at) : s.t = "o" /\ DOMAIN s.f \cap {"iss", "exp"} = {}}
 
+\* ---- a LINEAR family of selections for large trees: everything, nothing, "only this node (with its ancestors)",
+\* "everything but this node (and what is below it)", for every selectively disclosable node
+RECURSIVE SdPathsOf(_,_)
+SdPathsOf(v, path) ==
+  IF IsObj(v) THEN UNION {(IF v.f[k].sd THEN {path \o "/" \o k} ELSE {}) \cup SdPathsOf(v.f[k].v, path \o "/" \o k) : k \in DOMAIN v.f}
+  ELSE IF IsArr(v) THEN UNION {(IF v.e[i].sd THEN {path \o "/" \o Idx(i-1)} ELSE {}) \cup SdPathsOf(v.e[i].v, path \o "/" \o Idx(i-1)) : i \in DOMAIN v.e}
+  ELSE {}
+Below(x, y) == Len(x) < Len(y) /\ SubSeq(y, 1, Len(x) + 1) = x \o "/"          \* y lies strictly below x
+RECURSIVE SelFor(_,_,_)
+SelFor(v, P, path) ==
+  IF IsObj(v) THEN
+     LET pk(k) == path \o "/" \o k
+         deeper(k) == \E q \in P : Below(pk(k), q)
+         touch == {k \in DOMAIN v.f : pk(k) \in P \/ deeper(k)}
+     IN JObj([k \in touch |-> IF deeper(k) THEN SelFor(v.f[k].v, P, pk(k)) ELSE JBool(TRUE)])
+  ELSE IF IsArr(v) THEN
+     LET pi(i) == path \o "/" \o Idx(i-1)
+         deeper(i) == \E q \in P : Below(pi(i), q)
+     IN JArr([i \in DOMAIN v.e |-> IF deeper(i) THEN SelFor(v.e[i].v, P, pi(i)) ELSE IF pi(i) \in P THEN JBool(TRUE) ELSE JBool(FALSE)])
+  ELSE JBool(TRUE)
+LinearSels(at) ==
+  LET all == SdPathsOf(at, "")
+      anc(p) == {q \in all : q = p \/ Below(q, p)}
+      family == {all, {}} \cup {anc(p) : p \in all} \cup {{q \in all : q # p /\ ~Below(p, q)} : p \in all}
+  IN {SelFor(at, P, "") : P \in family}
 NoNarrow(cr, gh) == {}
 \* every selection whose selected disclosable nodes are a subset of the current ones
 SubSels(cr, gh) == LET at == cr[gh.c].at  now == SelPaths(at, gh.sel, "") IN {s \in RootSels(at) : SelPaths(at, s, "") \subseteq now}
